@@ -72,8 +72,26 @@ func guardedRoots(blk *ssa.BasicBlock) map[ssa.Value]bool {
 	return out
 }
 
-// provedDistinct: blk is dominated by an edge on which a != b.
+// provedDistinct: blk is dominated by an edge on which a != b; two phis of one block are distinct
+// when their incoming values are pairwise distinct on every edge (a conditional swap).
 func provedDistinct(blk *ssa.BasicBlock, a, b ssa.Value) bool {
+	if provedDistinct1(blk, a, b) {
+		return true
+	}
+	pa, ok1 := a.(*ssa.Phi)
+	pb, ok2 := b.(*ssa.Phi)
+	if ok1 && ok2 && pa.Block() == pb.Block() {
+		for i := range pa.Edges {
+			if pa.Edges[i] == pb.Edges[i] || !provedDistinct1(pa.Block().Preds[i], pa.Edges[i], pb.Edges[i]) {
+				return false
+			}
+		}
+		return len(pa.Edges) > 0
+	}
+	return false
+}
+
+func provedDistinct1(blk *ssa.BasicBlock, a, b ssa.Value) bool {
 	for x := blk; x != nil; x = x.Idom() {
 		if len(x.Preds) != 1 {
 			continue
@@ -176,9 +194,23 @@ func ruleRootLink(c *Ctx, r *RuleResult, fnName string, finders map[string]bool)
 			}
 		}
 	}
-	rootHere := func(v ssa.Value, at *ssa.BasicBlock) bool {
-		return findRes[v] || guardedRoots(at)[v]
+	var rootHereD func(v ssa.Value, at *ssa.BasicBlock, depth int) bool
+	rootHereD = func(v ssa.Value, at *ssa.BasicBlock, depth int) bool {
+		if findRes[v] || guardedRoots(at)[v] {
+			return true
+		}
+		// either of two roots, chosen by a test (e.g. swapped so that the smaller index survives)
+		if ph, ok := v.(*ssa.Phi); ok && depth < 3 {
+			for i, e := range ph.Edges {
+				if !rootHereD(e, ph.Block().Preds[i], depth+1) {
+					return false
+				}
+			}
+			return len(ph.Edges) > 0
+		}
+		return false
 	}
+	rootHere := func(v ssa.Value, at *ssa.BasicBlock) bool { return rootHereD(v, at, 0) }
 	if len(setStores(c, fn)) > 0 {
 		checkLinkStores(c, r, fn, fnName, rootHere, true)
 		return
@@ -316,6 +348,13 @@ func ruleCompress(c *Ctx, r *RuleResult, fnName string) {
 			desc = valName(s.st.Addr)
 		}
 		r.inst("%s: store %s", fnName, desc)
+		// path halving / splitting: the element is re-pointed at its grandparent, both parent pointers
+		// having just been tested non-negative: it stays in its tree
+		if isGrandparentStore(c, fn, s) {
+			r.oblig(true)
+			r.note("%s: %s re-points an element at its grandparent (path halving): still an ancestor in the same tree", fnName, desc)
+			continue
+		}
 		// every return reachable from the store returns the stored value
 		reach := reachableBlocks(s.st.Block(), nil)
 		ok, n := true, 0
@@ -342,7 +381,7 @@ func init() {
 	register(&propDef{
 		id:          "C18",
 		explanation: "Decides two representation-level necessary conditions of the parent-forest encoding (negative entry = root): ROOTLINK (in Union and UnionBuffered every store into the set indexes a value returned by Find/FindBuffered in that call, i.e. a root, and stores either the other root (link) or that root's own entry minus one (rank bump), never a rank bump of a root already linked away), COMPRESS (in Find and FindBuffered every store into the set writes exactly the value the function goes on to return, so a lookup can only re-point an element at the root of its own tree), plus READONLY for Roots and WRITE-SCOPE (the buffered variants write only the set and buf). Does not decide the partition itself.",
-		notDecided:  []string{"that two elements have the same representative exactly when connected by the unions so far", "Sets / SmallestRep / Roots describe that partition", "a correct path-halving variant would be reported (none exists in the tree)"},
+		notDecided:  []string{"that two elements have the same representative exactly when connected by the unions so far", "Sets / SmallestRep / Roots describe that partition", "other compression schemes than compress-to-root and path halving (e.g. path splitting written differently) would be reported"},
 		assumptions: []string{"Find returns a root (value-level; not decided)"},
 		run: func(c *Ctx, tier string) []*RuleResult {
 			rl := &RuleResult{Rule: "ROOTLINK", Doc: "union stores only link a Find result to the other Find result, or bump the rank of the surviving root", MinInst: 8}
@@ -373,11 +412,47 @@ func init() {
 			g := &RuleResult{Rule: "ROOTLINK"}
 			ruleRootLink(ctl, g, "(*dsctl.Set).GoodUnion", f)
 			ruleRootLink(ctl, g, "(*dsctl.Set).GoodUnionViaHelper", f)
+			ruleRootLink(ctl, g, "(*dsctl.Set).GoodUnionSmallerRoot", f)
 			out[0].Findings = append(out[0].Findings, g.Findings...)
 			cp := &RuleResult{Rule: "COMPRESS"}
 			ruleCompress(ctl, cp, "(*dsctl.Set).BadFind")
 			ruleCompress(ctl, cp, "(*dsctl.Set).Find")
+			good := &RuleResult{Rule: "COMPRESS"}
+			ruleCompress(ctl, good, "(*dsctl.Set).GoodFindHalving")
+			for _, f := range good.Findings {
+				f.Key += " (Good)"
+				cp.Findings = append(cp.Findings, f)
+			}
 			return append(out, cp)
 		},
 	})
+}
+
+// isGrandparentStore:  set[x] = set[set[x]]  with set[x] >= 0 and set[set[x]] >= 0 established.
+func isGrandparentStore(c *Ctx, fn *ssa.Function, s setStore) bool {
+	if s.ia == nil {
+		return false
+	}
+	P := NewProver(c, fn)
+	gl, ok := s.st.Val.(*ssa.UnOp)
+	if !ok || gl.Op != token.MUL {
+		return false
+	}
+	gia, ok := gl.X.(*ssa.IndexAddr)
+	if !ok || !sameSliceLoad(gia.X, s.ia.X) && P.canon(strip(gia.X)) != P.canon(strip(s.ia.X)) {
+		return false
+	}
+	pl, ok := P.canon(strip(gia.Index)).(*ssa.UnOp)
+	if !ok || pl.Op != token.MUL {
+		return false
+	}
+	pia, ok := pl.X.(*ssa.IndexAddr)
+	if !ok || pia.Index != s.ia.Index {
+		return false
+	}
+	if !sameSliceLoad(pia.X, s.ia.X) && P.canon(strip(pia.X)) != P.canon(strip(s.ia.X)) {
+		return false
+	}
+	b := s.st.Block()
+	return P.Prove(P.poly(pl).scale(-1), b) && P.Prove(P.poly(gl).scale(-1), b)
 }
